@@ -14,7 +14,8 @@ pub struct C03;
 
 fn owns(v: &StepViolation) -> bool {
     match v.kind {
-        Kind::WrongValue => true,
+        // a pixel with zero coverage (weight 0) keeps its value: also part of "depends only on the pixel's own inputs"
+        Kind::WrongValue | Kind::OutsideChanged => true,
         Kind::Panic => !is_nonsep_overflow(v),
         _ => false,
     }
